@@ -47,12 +47,57 @@ type workload struct {
 	// meta: the object every PodGroup of the workload inherits labels / annotations from (nil: the
 	// pods themselves, for which OwnerChange schedules are not run)
 	meta *unstructured.Unstructured
+	// metaShadowsTop: this install carries the scheduling labels on `meta` AND on the top owner, and the kind
+	// documents that meta's labels win while the top owner's are the fallback (grove: "metadata propagation from
+	// PodCliqueSet to PodGang", grove_grouper.go). Removing a label from meta then uncovers the top owner's value.
+	metaShadowsTop bool
 }
 
 type entry struct {
 	id    string
 	gvks  []string // hub keys "group/version/Kind" exercised by this entry
 	build func(n int, labelled bool) *workload
+}
+
+// expOwner: the two derived fields that follow a label of the metadata owner which the user may set, change
+// and remove while the workload runs, tabulated by the label's state: index 0 = label absent, 1 = the value a
+// labelled install carries (labelTop: non-preemptible / build), 2 = the other legal value (preemptible /
+// inference).
+type expOwner struct {
+	Pe [3]string `json:"pe"` // spec.preemptibility by state of kai.scheduler/preemptibility
+	Pr [3]string `json:"pr"` // spec.priorityClassName by state of priorityClassName
+}
+
+// ownerExpectations derives the table from the catalogue's two documented installs of the same workload
+// (plain = no scheduling labels, labelled = labelTop on the metadata owner), independently of the grouper
+// code and of any store: a PodGroup must look like a FRESH grouping of the workload as it is now, so
+//   - label absent  -> what the plain install documents (the kind's default priority class, no preemptibility);
+//     if the install carries the same labels on the top owner as documented fallback (metaShadowsTop): the
+//     fallback's value, which is the labelled install's;
+//   - label state 1 -> what the labelled install documents;
+//   - label state 2 -> the label's value itself if the labelled install shows that the kind takes the field
+//     from this label (labelled expectation = the label's value), otherwise what the labelled install
+//     documents (the kind ignores the label for this field: knative preemptibility, InteractiveWorkload).
+//
+// Each label controls exactly one field (docs/developer/pod-grouper.md, default_grouper.go doc comments), the
+// labelled install differs from the plain one in nothing else that these two fields depend on.
+func ownerExpectations(plain, labelled *workload, installed *workload) []expOwner {
+	out := make([]expOwner, len(plain.exp))
+	for g := range plain.exp {
+		pl, lb := plain.exp[g], labelled.exp[g]
+		if installed.metaShadowsTop {
+			pl = lb
+		}
+		pe2, pr2 := lb.Preempt, lb.Prio
+		if lb.Preempt == "non-preemptible" {
+			pe2 = "preemptible"
+		}
+		if lb.Prio == "build" {
+			pr2 = "inference"
+		}
+		out[g] = expOwner{Pe: [3]string{pl.Preempt, lb.Preempt, pe2}, Pr: [3]string{pl.Prio, lb.Prio, pr2}}
+	}
+	return out
 }
 
 // ---- object builders -------------------------------------------------------------------------
@@ -577,7 +622,7 @@ func catalogue() []entry {
 		return entry{id: "Grove" + kind, gvks: []string{"grove.io/v1alpha1/" + kind}, build: func(n int, labelled bool) *workload {
 			top := obj("grove.io/v1alpha1", kind, "w", nil, map[string]any{})
 			labelTop(top, labelled)
-			w := &workload{objs: []client.Object{top}}
+			w := &workload{objs: []client.Object{top}, metaShadowsTop: labelled}
 			groveBuild(top, top, n, labelled, w)
 			return w
 		}}
